@@ -271,6 +271,7 @@ def _run_ds_group(c):
         T = c["T"]
         rec = _ds_run(c, start, params, grads)
         fails, steps = [], []
+        last_due_S = {}
         for t, (u, v0, v1) in enumerate(rec):
             st = {"count": v0.count, "count_after": v1.count}
             if v1.count != v0.count + 1:
@@ -316,14 +317,18 @@ def _run_ds_group(c):
                     p = 2 * len(shapes[n])
                     Pn = np.asarray(v1.P[k])[:sz, :sz]
                     e_new = _relerr(_ds_root(np.asarray(v1.S[k])[:sz, :sz], p), Pn)
-                    if same:
+                    # statistics seen by the previous ACCEPTED refresh of this slot (they may have moved on earlier
+                    # steps that were not preconditioner steps, so v0.S is not enough)
+                    prev = last_due_S.get(k)
+                    if prev is None or _bits(prev) == _bits(v1.S[k]):
                         refl = {"new": e_new, "old": None}
                     else:
-                        e_old = _relerr(_ds_root(np.asarray(v0.S[k])[:sz, :sz], p), Pn)
+                        e_old = _relerr(_ds_root(np.asarray(prev)[:sz, :sz], p), Pn)
                         refl = {"new": e_new, "old": e_old}
                         if e_old < 1e-3 and e_new > 10 * max(e_old, 1e-6):
-                            fails.append(f"step {t}: refreshed preconditioner slot {k} is the root of the PREVIOUS statistics "
-                                         f"(rel. distance {e_old:.2e}) not of the current ones ({e_new:.2e})")
+                            fails.append(f"step {t}: refreshed preconditioner slot {k} is the root of the statistics of the PREVIOUS "
+                                         f"refresh (rel. distance {e_old:.2e}) not of the current ones ({e_new:.2e})")
+                    last_due_S[k] = v1.S[k]
                 st["reflect"].append(refl)
             # ---- selection and warm-up boundary
             sel, used = [], []
@@ -469,6 +474,7 @@ def _run_tf_group(c):
         case["start"] = start
         rec = _tf_run(c, start, params, grads)
         fails, steps = [], []
+        last_due_stats = {}
         for t, (u, v0, v1) in enumerate(rec):
             st = {}
             cs0, cs1 = v0["counts"], v1["counts"]
@@ -494,14 +500,18 @@ def _run_tf_group(c):
                         naxes = sum(1 for kk in v1["stats"] if kk.rsplit(".stats[", 1)[0] == k.rsplit(".stats[", 1)[0])
                         p = 2 * naxes
                         e_new = _relerr(_np_root(v1["stats"][k], p), v1["roots"][kr])
-                        if same:
+                        # statistics the roots were computed from at the previous due step (not merely the
+                        # statistics before this step: they may have moved on an earlier, non-due step)
+                        prev = last_due_stats.get(k)
+                        if prev is None or _bits(prev) == _bits(v1["stats"][k]):
                             refl = {"new": e_new, "old": None}
                         else:
-                            e_old = _relerr(_np_root(v0["stats"][k], p), v1["roots"][kr])
+                            e_old = _relerr(_np_root(prev, p), v1["roots"][kr])
                             refl = {"new": e_new, "old": e_old}
                             if e_old < 1e-3 and e_new > 10 * max(e_old, 1e-6):
-                                fails.append(f"step {t}: refreshed roots {kr} are the roots of the PREVIOUS statistics "
-                                             f"({e_old:.2e}) not of the current ones ({e_new:.2e})")
+                                fails.append(f"step {t}: roots {kr} on a refresh step are the roots of the statistics of the "
+                                             f"previous refresh ({e_old:.2e}) not of the current ones ({e_new:.2e})")
+                        last_due_stats[k] = v1["stats"][k]
                     st["reflect"].append(refl)
             else:
                 due = t % c["f"] == 0
